@@ -114,8 +114,8 @@ def gen(run):
             if not quick:
                 for k in range(0, len(data), 3):
                     yield case_dense(rd, DEFAULT_MAX, 12, data[:k]), "cumulative-truncated"
-    yield from P.rewrite_cases(rng, 60 if quick else 1500)
-    yield from P.tree_mutations(rng, 30 if quick else 600)
+    yield from P.rewrite_cases(rng, 60 if quick else 6000)
+    yield from P.tree_mutations(rng, 30 if quick else 3000)
     if not quick:
         yield from P.pathologies(rng)
         yield from P.toplevel_sequences(3)
